@@ -164,7 +164,7 @@ type Case struct {
 	Set        string `json:"set"`
 	Devs       []Dev  `json:"devs"`
 	Interleave string `json:"il"`
-	Link       string `json:"link"` // "eth" | "raw"
+	Link       string `json:"link"` // "eth" | "raw" | "vlan" (802.1Q tag) | "qinq" (two stacked tags)
 	Cuts       []int  `json:"cuts"` // packet positions at which a new capture file starts
 	// Assign (instead of Cuts): "ovl:<k>" - two sensors with overlapping captures: of the first k
 	// packets the even ones go to file 0 and the odd ones to file 1, the rest to file 2;
@@ -1209,7 +1209,18 @@ func (c *Capture) serialize(p *Pkt, link layers.LinkType, ipid uint16) ([]byte, 
 		if v6 {
 			et = layers.EthernetTypeIPv6
 		}
-		ls = append(ls, &layers.Ethernet{SrcMAC: macs[p.Dir], DstMAC: macs[1-p.Dir], EthernetType: et})
+		switch c.Case.Link {
+		case "vlan":
+			// an 802.1Q tag between the Ethernet header and the network layer
+			ls = append(ls, &layers.Ethernet{SrcMAC: macs[p.Dir], DstMAC: macs[1-p.Dir], EthernetType: layers.EthernetTypeDot1Q},
+				&layers.Dot1Q{VLANIdentifier: 42, Type: et})
+		case "qinq":
+			// two stacked tags (provider and customer VLAN)
+			ls = append(ls, &layers.Ethernet{SrcMAC: macs[p.Dir], DstMAC: macs[1-p.Dir], EthernetType: layers.EthernetTypeQinQ},
+				&layers.Dot1Q{VLANIdentifier: 7, Type: layers.EthernetTypeDot1Q}, &layers.Dot1Q{VLANIdentifier: 42, Type: et})
+		default:
+			ls = append(ls, &layers.Ethernet{SrcMAC: macs[p.Dir], DstMAC: macs[1-p.Dir], EthernetType: et})
+		}
 	}
 	proto := layers.IPProtocolTCP
 	if p.UDP {
@@ -1255,9 +1266,15 @@ func (c *Capture) serialize(p *Pkt, link layers.LinkType, ipid uint16) ([]byte, 
 	if v6 {
 		return nil, fmt.Errorf("fragmentation is generated for IPv4 only")
 	}
-	ipOff := 0
+	ipOff, linkLayers := 0, 0
 	if link == layers.LinkTypeEthernet {
-		ipOff = 14
+		ipOff, linkLayers = 14, 1
+		switch c.Case.Link {
+		case "vlan":
+			ipOff, linkLayers = 18, 2
+		case "qinq":
+			ipOff, linkLayers = 22, 3
+		}
 	}
 	// (an Ethernet frame shorter than 60 bytes was padded: the datagram ends where its length field says)
 	body := whole[ipOff+20 : ipOff+int(whole[ipOff+2])<<8+int(whole[ipOff+3])]
@@ -1274,9 +1291,7 @@ func (c *Capture) serialize(p *Pkt, link layers.LinkType, ipid uint16) ([]byte, 
 		part = body[cut:]
 	}
 	var fl []gopacket.SerializableLayer
-	if link == layers.LinkTypeEthernet {
-		fl = append(fl, ls[0])
-	}
+	fl = append(fl, ls[:linkLayers]...)
 	fl = append(fl, ip, gopacket.Payload(part))
 	fbuf := gopacket.NewSerializeBuffer()
 	if err := gopacket.SerializeLayers(fbuf, gopacket.SerializeOptions{FixLengths: true, ComputeChecksums: true}, fl...); err != nil {
@@ -1288,7 +1303,7 @@ func (c *Capture) serialize(p *Pkt, link layers.LinkType, ipid uint16) ([]byte, 
 // LinkType resolves the case's link name for this set ("raw" needs a single address family).
 func (c *Capture) LinkType() (layers.LinkType, error) {
 	switch c.Case.Link {
-	case "eth", "":
+	case "eth", "", "vlan", "qinq":
 		return layers.LinkTypeEthernet, nil
 	case "raw":
 		v6 := 0
